@@ -1,0 +1,17 @@
+//go:build verif
+
+// Package vhook provides pause points for the verification harness in /verif.
+// With the "verif" build tag a harness may install Fn; every At call then
+// reports the named point (and blocks for as long as Fn does). Without the
+// tag At is an empty function.
+package vhook
+
+// Fn is installed by the verification harness. nil means "do nothing".
+var Fn func(point string, args ...interface{})
+
+// At reports that the calling goroutine reached the named point.
+func At(point string, args ...interface{}) {
+	if f := Fn; f != nil {
+		f(point, args...)
+	}
+}
